@@ -170,7 +170,7 @@ class System:
                 diffs.append(f'step {t}: kind predicted {s.rkind} native {kind}')
                 continue
             if s.rkind == 0 and r is not None:
-                if s.rcas is not None and r['cas'] != mval(m, tr.rcas[t]):
+                if s.rcas is not None and s.cmd != 'delete' and r['cas'] != mval(m, tr.rcas[t]):
                     diffs.append(f"step {t}: cas predicted {mval(m, tr.rcas[t])} native {r['cas']}")
                 if s.rnum is not None and len(r['value']) == 8 and struct.unpack('>Q', r['value'])[0] != mval(m, tr.rnum[t]):
                     diffs.append(f"step {t}: counter predicted {mval(m, tr.rnum[t])} native {struct.unpack('>Q', r['value'])[0]}")
